@@ -49,6 +49,10 @@ def payloads(rng, tier):
     out.append(("polyglot-stun-magic-dns", bytes.fromhex("000100002112a442") + b"\0" * 12))
     out.append(("dns-3q", gens.dns_query(names=(b"a.b", b"c.d.e", b"x"))))
     out.append(("dns-txt", gens.dns_query(qtype=16)))
+    out.append(("dns-aaaa", gens.dns_query(qtype=28)))
+    out.append(("dns-any", gens.dns_query(qtype=255)))
+    q = gens.dns_query(names=(b"a.b", b"c.d"))
+    out.append(("dns-a-then-aaaa", q[:-4] + b"\0\x1c\0\1"))          # second question AAAA
     out.append(("http-post", gens.http_req(verb=b"POST", target=b"/x?y=z", headers=[(b"A", b"b")])))
     import props.c01 as c01
     out.append(("smb1-neg", c01.SMB1_NEG))
